@@ -204,8 +204,14 @@ CLAIMED = {
              "run — the model never predicts undefined behaviour (uses C18.inbounds and levels_never_ub); a run implies an accepted test "
              "case, caches for the take strategy, a generated grid and L >= 2 coarsenable levels with nr >= 5, nt >= 4 on the coarsest.  The "
              "test-case table is regenerated from select_test_case.cpp on every run.  Tie: random option tuples through the real parser, "
-             "setup() and solve() in child processes (ASan/UBSan builds in the thorough tier).",
-        design_ref="DESIGN.md section 4, C20", note="PARTIAL: UB-freedom of spec-modelled C++ (smoother internals, assembly) rests on sanitizer runs; defects F3, F6, F12 repaired.",
+             "setup() and solve() in child processes (ASan/UBSan builds in the thorough tier).  ORCHESTRATION (C20s): GMGModel/Setup.lean is the "
+             "decision table of what setup() provides per level (smoother / extrapolated smoother / direct solver / residual objects, built "
+             "right-hand sides, threads per level, the smoother switch); theorems stop_ok, cycle_ok, init_ok, rhs_never_written: for every "
+             "level count >= 2, every mode, cycle type, FMG setting and smoothing counts, no instruction of any program solve() can run "
+             "calls an operator object that was not created, indexes a missing level, reads a right-hand side that was not built or writes "
+             "one (negative theorems show the model sees a one-level hierarchy, a missing level-1 right-hand side and a missing smoother); "
+             "tie: the table against real setup() runs, and instrOK evaluated on the trace of the following real solve().",
+        design_ref="DESIGN.md section 4, C20 and R.9", note="PARTIAL: UB-freedom of spec-modelled C++ (smoother internals, assembly) rests on sanitizer runs; defects F3, F6, F12 repaired.",
         technique="Lean 4 proof over a decision model + translator for the test-case table + process-level differential testing"),
     "C11": dict(
         category="proof",
